@@ -5,6 +5,7 @@
 package main
 
 import (
+	"math"
 	"math/rand"
 	"strconv"
 	"strings"
@@ -250,24 +251,88 @@ func (g *gen) genSmallUint(n int) (string, uint64) {
 	return strconv.FormatUint(v, 10), v
 }
 
-// int literal -? uint with magnitude <= 2^53
+// saturation of a signed magnitude at the int64 limits (what the text denotes in a position read by
+// Parser.int: the written value if it is an int64, the nearer limit otherwise)
+func satInt(neg bool, mag uint64) int64 {
+	switch {
+	case neg && mag >= 1<<63:
+		return math.MinInt64
+	case neg:
+		return -int64(mag)
+	case mag >= 1<<63:
+		return math.MaxInt64
+	}
+	return int64(mag)
+}
+
+// number in a position read by Parser.int (INT / HEX attribute ranges, defaults, values): -? digits
+// over the whole int64 range - exact beyond 2^53 (the fix F12), the limits themselves, one beyond
+// each limit and beyond uint64 (saturation), leading zeros (text/scanner takes a leading 0 for an
+// octal prefix and rejects the digits 8 and 9 behind it; the value is decimal all the same) - and
+// float spellings of integers below 2^53 (fraction / exponent: these still travel through float64,
+// where they are exact; a fraction is truncated toward zero). The expected value is computed here,
+// from the generated magnitude, never from the text.
 func (g *gen) genInt() (string, int64) {
-	var v int64
-	switch g.r.Intn(6) {
+	neg := g.r.Intn(3) == 0
+	sign := ""
+	if neg {
+		sign = "-"
+	}
+	var mag uint64
+	switch g.r.Intn(16) {
 	case 0:
-		v = 0
+		mag = 0
 	case 1:
-		v = g.r.Int63n(1<<53 + 1)
+		mag = uint64(g.r.Int63n(1<<53 + 1))
 	case 2:
-		v = 1 << 53
+		mag = 1<<53 - 1 + uint64(g.r.Intn(3)) // 2^53-1, 2^53, 2^53+1
+	case 3:
+		mag = 1<<53 + 1 + 2*uint64(g.r.Int63n(1<<61)) // odd, beyond 2^53: never a float64
+	case 4:
+		mag = uint64(g.r.Int63()) // anywhere in int64
+	case 5:
+		mag = 1<<63 - 1 - uint64(g.r.Intn(3)) // MaxInt64 and its neighbours
+	case 6:
+		mag = 1<<63 + uint64(g.r.Intn(2)) // 2^63: MinInt64 when negative, one beyond MaxInt64 otherwise; 2^63+1: beyond both
+	case 7:
+		mag = 1<<63 + uint64(g.r.Int63()) // beyond int64, inside uint64
+	case 8: // beyond uint64 (ParseUint reports a range error): saturates
+		s := []string{"18446744073709551615", "18446744073709551616", "18446744073709551617", "99999999999999999999",
+			"10000000000000000000000000", "340282366920938463463374607431768211456"}[g.r.Intn(6)]
+		return sign + s, satInt(neg, math.MaxUint64)
+	case 9: // leading zeros, octal digits only
+		n := 1 + g.r.Intn(19)
+		b := make([]byte, n)
+		for i := range b {
+			b[i] = byte('0' + g.r.Intn(8))
+			mag = mag*10 + uint64(b[i]-'0')
+		}
+		return sign + strings.Repeat("0", 1+g.r.Intn(3)) + string(b), satInt(neg, mag)
+	case 10: // integer below 2^53 with a fraction: truncated toward zero
+		mag = uint64(g.r.Int63n(1 << 53))
+		frac := "0"
+		if g.r.Intn(2) == 0 {
+			// below 2^40 the float64 grid is finer than 2^-12: x.999 does not round up to x+1
+			mag = uint64(g.r.Int63n(1 << 40))
+			frac = digits(g.r, 1+g.r.Intn(3), false)
+		}
+		return sign + strconv.FormatUint(mag, 10) + "." + frac, satInt(neg, mag)
+	case 11: // mantissa and exponent, value below 2^53
+		m := uint64(g.r.Intn(1000000))
+		e := g.r.Intn(10)
+		mag = m
+		for i := 0; i < e; i++ {
+			mag *= 10
+		}
+		return sign + strconv.FormatUint(m, 10) + []string{"e", "E", "e+", "E+"}[g.r.Intn(4)] + strconv.Itoa(e), satInt(neg, mag)
+	case 12: // float spellings that round to exactly 2^63 = float64(math.MaxInt64), or lie beyond it: MaxInt64
+		// (positive only: below -2^63 the float64 path saturates at -(2^63-1), as the repository's golden file expects)
+		return []string{"9223372036854775807.0", "9223372036854775808.0", "9.223372036854775807e18", "9223372036854775296.5",
+			"9223372036854775807e0", "1e19", "3.4E+038"}[g.r.Intn(7)], math.MaxInt64
 	default:
-		v = int64(g.r.Intn(100000))
+		mag = uint64(g.r.Intn(100000))
 	}
-	s := strconv.FormatInt(v, 10)
-	if g.r.Intn(3) == 0 {
-		return "-" + s, -v
-	}
-	return s, v
+	return sign + strconv.FormatUint(mag, 10), satInt(neg, mag)
 }
 
 func digits(r *rand.Rand, n int, noLeadingZero bool) string {
